@@ -47,7 +47,7 @@ CHECKS = {
    technique="property-based testing (proptest operation sequences + interpreter) against a reference model, with shrinking"),
  "C20": dict(level="exploration", ref="2/C20",
    text="Generated Request/Response values of every variant round-trip through to_bytes/from_bytes and the length-prefixed framing (short reads, back-to-back frames); random bytes and mutated valid frames are fed to every decoder and the frame reader with a no-panic / no-hang / bounded-allocation oracle. Sampling, not proof: held on the generated cases only.",
-   note="Trusted: the harness mirror types and comparator; VmPeak-based allocation bound (64*len + 64 MiB), RLIMIT_AS 8 GiB; build profile opt-level 2 with overflow checks and debug assertions.",
+   note="Trusted: the harness mirror types and comparator; VmPeak-based allocation bound (64*len + 192 MiB after allocator warm-up), RLIMIT_AS 8 GiB; build profile opt-level 2 with overflow checks and debug assertions.",
    technique="property-based testing (proptest value trees): round-trip oracle + robustness oracle over generated/mutated byte strings"),
 }
 ALL = [json.loads(l)["id"] for l in open("/verif/properties.jsonl")]
